@@ -95,6 +95,13 @@ def rule_r1(ctx):
                     else:
                         rr.ok(what, sample={"rule": "C06-R1", "statement": kind, "hole": e.path, "namespace": tag, "verdict": "rewritten"})
                 elif e.kind in ("load-user", "bind-user"):
+                    if e.kind == "load-user" and own_param_name(e.extra.get("prim")) and e.deferred >= 1:
+                        first_body = min((x.pos for x in evs if x.kind in ("S", "X") and x.deferred >= 1), default=None)
+                        if first_body is None or e.pos < first_body:
+                            # the function reads one of its own parameters at entry, before any user
+                            # code of the body: a parameter is a plain variable of the lambda there
+                            rr.ok(what, sample={"rule": "C06-R1", "statement": kind, "hole": e.path, "verdict": "own parameter read at function entry"})
+                            continue
                     rr.fail(
                         f"C06-R1|{kind}|{_field_path(e.path)}|{e.kind}",
                         f"{ci.name} ({e.site}): a plain Name on the user identifier {e.path} is built outside the namespace classes",
@@ -337,7 +344,108 @@ def rule_r4(ctx):
             )
         else:
             rr.ok(what, sample={"rule": "C06-R4", "site": fi.where(), "predicate": ast.unparse(ifnode.test), "models": len(models), "verdict": "implies is_local"})
+    # the predicates are asked of the symbol of the ENCLOSING function whose sets are extended, and a
+    # name is recorded as a nonlocal parameter exactly when that symbol is a parameter
+    n_param_sites = 0
+    for ci, fi, call, owner, name, tests in _set_add_sites(ctx.prog, ("inner_nonlocal_names", "nonlocal_parameters")):
+        attr = call.func.value.attr
+        what = f"{ci.name}|{attr}|receiver"
+        rr.instances += 1
+        n_param_sites += attr == "nonlocal_parameters"
+        bad = None
+        for t in tests:
+            for c in ast.walk(t):
+                if isinstance(c, ast.Call) and isinstance(c.func, ast.Attribute) and c.func.attr in models[0] and not c.args:
+                    recv = _resolve_local(fi, c.func.value)
+                    want = f"{owner}.symt.lookup({name})"
+                    if recv != want:
+                        bad = bad or (c, recv, want)
+        if bad:
+            c, recv, want = bad
+            rr.fail(
+                f"C06-R4|{ci.name}|{attr}|wrong-symbol",
+                f"{fi.where()} line {c.lineno}: `{ast.unparse(c)}` guards `{ast.unparse(call)}` but asks the symbol `{recv}`; the sets of `{owner}` describe ITS variable `{name}`, i.e. `{want}` (the symbol of the inner scope is free there: never a parameter, never local)",
+                where=fi.where(), what=what,
+            )
+            continue
+        rr.ok(what)
+        if attr == "nonlocal_parameters":
+            what = f"{ci.name}|{attr}|predicate"
+            test = ast.BoolOp(op=ast.And(), values=list(tests)) if len(tests) > 1 else tests[0]
+            wrong = None
+            for m in models:
+                v = eval_symbol_pred(test, m)
+                if v is None:
+                    raise AnalysisError(f"C06-R4: guard of {ast.unparse(call)} at {fi.where()} is not a combination of symtable predicates")
+                if m["is_local"] and v != m["is_parameter"]:
+                    wrong = wrong or (m, v)
+            if wrong:
+                m, v = wrong
+                rr.fail(
+                    f"C06-R4|{ci.name}|{attr}|predicate",
+                    f"{fi.where()} line {call.lineno}: a local variable with is_parameter={m['is_parameter']} (scope {m['scope']}) is {'recorded' if v else 'not recorded'} as nonlocal parameter: the function-entry dict {{p: p}} must name exactly the parameters captured by inner scopes",
+                    where=fi.where(), what=what,
+                )
+            else:
+                rr.ok(what, sample={"rule": "C06-R4", "site": fi.where(), "guard": ast.unparse(test), "verdict": "equivalent to is_parameter() of the enclosing function's symbol"})
+    if n_param_sites < 2:
+        raise AnalysisError(f"C06-R4: only {n_param_sites} population sites of nonlocal_parameters found (2 confirmed by hand)")
     return rr
+
+
+def _set_add_sites(prog, attrs):
+    """Calls `<owner>.<attr>.add(<name>)` in oneliner.namespaces with the If tests that guard them
+    inside the innermost enclosing loop."""
+    mi = prog.modules.get("oneliner.namespaces")
+    out = []
+    for ci in mi.classes.values():
+        for fi in ci.methods.values():
+            def walk(stmts, tests):
+                for st in stmts:
+                    if isinstance(st, ast.If):
+                        walk(st.body, tests + [st.test])
+                        walk(st.orelse, tests + [ast.UnaryOp(op=ast.Not(), operand=st.test)])
+                    elif isinstance(st, (ast.For, ast.While)):
+                        walk(st.body, [])
+                        walk(st.orelse, [])
+                    elif isinstance(st, (ast.With, ast.Try)):
+                        for blk in ("body", "orelse", "finalbody"):
+                            walk(getattr(st, blk, []) or [], tests)
+                        for h in getattr(st, "handlers", []):
+                            walk(h.body, tests)
+                    else:
+                        for c in ast.walk(st):
+                            if (
+                                isinstance(c, ast.Call) and isinstance(c.func, ast.Attribute) and c.func.attr == "add"
+                                and isinstance(c.func.value, ast.Attribute) and c.func.value.attr in attrs and len(c.args) == 1
+                            ):
+                                out.append((ci, fi, c, ast.unparse(c.func.value.value), ast.unparse(c.args[0]), [t for t in tests if _is_symbol_test(t)]))
+            walk(fi.node.body, [])
+    return [x for x in out if x[5]]
+
+
+def _is_symbol_test(t):
+    return any(isinstance(c, ast.Call) and isinstance(c.func, ast.Attribute) and c.func.attr.startswith(("is_", "get_")) for c in ast.walk(t))
+
+
+def _resolve_local(fi, expr, depth=0):
+    """Text of `expr` with single-assignment local names replaced by their definitions."""
+    if isinstance(expr, ast.Name) and depth < 4:
+        defs = [
+            st.value for st in ast.walk(fi.node)
+            if isinstance(st, ast.Assign) and len(st.targets) == 1 and isinstance(st.targets[0], ast.Name) and st.targets[0].id == expr.id
+        ]
+        params = {a.arg for a in fi.node.args.posonlyargs + fi.node.args.args + fi.node.args.kwonlyargs}
+        loops = [n for n in ast.walk(fi.node) if isinstance(n, (ast.For, ast.comprehension)) and any(isinstance(x, ast.Name) and x.id == expr.id for x in ast.walk(n.target))]
+        if len(defs) == 1 and expr.id not in params and not loops and any(isinstance(x, (ast.Call, ast.Attribute)) for x in ast.walk(defs[0])):
+            return _resolve_local(fi, defs[0], depth + 1)
+        return expr.id
+    if isinstance(expr, ast.Attribute):
+        return f"{_resolve_local(fi, expr.value, depth + 1)}.{expr.attr}"
+    if isinstance(expr, ast.Call):
+        args = ", ".join(_resolve_local(fi, a, depth + 1) for a in expr.args)
+        return f"{_resolve_local(fi, expr.func, depth + 1)}({args})"
+    return ast.unparse(expr)
 
 
 def _pop_implies_local(ctx):
@@ -436,6 +544,53 @@ def rule_r3(ctx):
     return rr
 
 
+_PARAM_FIELDS = ("posonlyargs", "args", "vararg", "kwonlyargs", "kwarg")
+
+
+def own_param_name(u):
+    """For the identifier of one of the template's own parameters (<root>.args.<kind>[...].arg): the kind."""
+    from ..vals import UNode, UPrim
+
+    if not isinstance(u, UPrim) or u.field != "arg":
+        return None
+    a = u.parent
+    if not isinstance(a, UNode) or a.field not in _PARAM_FIELDS:
+        return None
+    args = a.parent
+    if not isinstance(args, UNode) or args.field != "args" or args.parent is None or args.parent.parent is not None:
+        return None
+    return a.field
+
+
+def _param_seed_sources(ks, vs):
+    """Kinds of parameters seeded by a Dict whose every pair is Constant(p): Name(p) on the same own
+    parameter p; None when the Dict is something else."""
+    def flat(pl):
+        out = []
+        for i in pl.items:
+            if isinstance(i, Rep):
+                out.extend(i.items)
+            else:
+                out.append(i)
+        return out
+
+    fk, fv = flat(ks), flat(vs)
+    if len(fk) != len(fv):
+        return None
+    srcs = set()
+    for kk, vv in zip(fk, fv):
+        if not (isinstance(kk, TNode) and kk.kind == "Constant" and isinstance(vv, TNode) and vv.kind == "Name"):
+            return None
+        u = kk.fields.get("value")
+        if u is not vv.fields.get("id"):
+            return None
+        src = own_param_name(u)
+        if src is None:
+            return None
+        srcs.add(src)
+    return srcs
+
+
 def rule_r5(ctx):
     rr = RuleResult("C06-R5", "nonlocal/class dicts are created before any use, seeded with the nonlocal parameters; class-dict loads fall back to the plain name")
     rr.floor = 3
@@ -443,6 +598,8 @@ def rule_r5(ctx):
     # (a) function template
     fent = T.pending_by_kind("FunctionDef")
     rr.instances += 1
+    form_b = False
+    n_form_b_full = 0
     for pr in fent.ok_paths():
         evs, w = path_events(pr)
         need = any("inner_nonlocal_names" in k and v is True for k, v in pr.assign.items())
@@ -453,8 +610,10 @@ def rule_r5(ctx):
             if not dict_binds or not body or not all(b.deferred >= 1 for b in dict_binds) or dict_binds[0].pos > body[0].pos:
                 rr.fail("C06-R5|FunctionDef|nonlocal-dict|not-before-body", f"PendingFunctionDef: the nonlocal dict is not created at function entry before the lowered body [context: {short_ctx(pr, 100)}]", what=what)
             else:
-                # seeded with exactly the nonlocal parameters: Dict(keys=Rep(Constant(p)), values=Rep(Name(p)))
+                # seeded with exactly the nonlocal parameters: Dict(keys=Rep(Constant(p)), values=Rep(Name(p))),
+                # or with the function's own parameters of all five kinds filtered by membership
                 ok = False
+                why = "no Dict of {name: name} pairs"
                 for t in iter_tnodes(pr.result):
                     if t.kind == "Dict":
                         ks, vs = t.fields.get("keys"), t.fields.get("values")
@@ -464,12 +623,34 @@ def rule_r5(ctx):
                                 kk, vv = k0.items[0], v0.items[0]
                                 if isinstance(kk, TNode) and kk.kind == "Constant" and isinstance(vv, TNode) and vv.kind == "Name" and kk.fields.get("value") is vv.fields.get("id"):
                                     ok = True
+                        if not ok and isinstance(ks, PList) and isinstance(vs, PList):
+                            srcs = _param_seed_sources(ks, vs)
+                            if srcs is None:
+                                continue
+                            ins = [v for k, v in pr.assign.items() if k.startswith("in:") and "nonlocal_parameters" in k]
+                            if not srcs and not ins:
+                                continue  # some other empty dict
+                            form_b = True
+                            if not ins or not all(v is True for v in ins):
+                                ok = True  # some parameters are not nonlocal on this path: nothing to require
+                                continue
+                            want = {"posonlyargs", "args", "kwonlyargs"}
+                            for opt in ("vararg", "kwarg"):
+                                if any(k.startswith("isnone:") and k.endswith("." + opt) and v is False for k, v in pr.assign.items()):
+                                    want.add(opt)
+                            if want <= srcs:
+                                ok = True
+                                n_form_b_full += 1
+                            else:
+                                why = f"parameters of kind {sorted(want - srcs)} are never put into the dict although they may be nonlocal parameters"
                 if ok:
                     rr.ok(what, sample={"rule": "C06-R5", "template": "FunctionDef", "verdict": "dict created at entry, seeded {p: p for p in nonlocal_parameters}"})
                 else:
-                    rr.fail("C06-R5|FunctionDef|nonlocal-dict|seed", "PendingFunctionDef: the nonlocal dict is not seeded with {name: name} for exactly the nonlocal parameters", what=what)
+                    rr.fail("C06-R5|FunctionDef|nonlocal-dict|seed", f"PendingFunctionDef: the nonlocal dict is not seeded with {{name: name}} for exactly the nonlocal parameters ({why})", what=what)
         else:
             rr.ok(what, nontrivial=False)
+    if form_b and not n_form_b_full:
+        rr.fail("C06-R5|FunctionDef|nonlocal-dict|seed", "PendingFunctionDef: no path seeds the nonlocal dict with the parameters of every kind", what="FunctionDef|nonlocal-dict|coverage")
     # (b) class template
     cent = T.pending_by_kind("ClassDef")
     rr.instances += 1
